@@ -68,15 +68,21 @@ func cmdM3(args []string) error {
 			id := s.ID
 			s.Auto = func(method string, req *puppet.Req) []puppetsrv.Cmd {
 				h := rand.New(rand.NewSource(behSeed ^ int64(req.GetCall())*31 ^ int64(id)*1000003))
-				if atomic.LoadInt32(&probing) == 1 {
-					return []puppetsrv.Cmd{{Kind: "reply", Val: 1}}
-				}
 				kind := "reply"
 				switch method {
 				case "CorrStream", "CorrStreamCustom":
 					kind = "item"
 				case "Mcast", "McastPerNode", "Ucast":
 					kind = "done"
+				}
+				if atomic.LoadInt32(&probing) == 1 {
+					// the probe phase: every handler (also one of a request of the
+					// workload that arrives only now) answers at once and returns
+					cmds := []puppetsrv.Cmd{{Kind: kind, Val: 1}}
+					if kind == "item" {
+						cmds = append(cmds, puppetsrv.Cmd{Kind: "end"})
+					}
+					return cmds
 				}
 				var cmds []puppetsrv.Cmd
 				switch x := h.Intn(10); {
